@@ -324,6 +324,15 @@ func (v *verdict) evalElem(e *fieldD, s *source, el any, p string) {
 		for i, x := range arr {
 			v.evalElem(e.Elem, s, x, fmt.Sprintf("%s[%d]", p, i))
 		}
+	case reflect.Map:
+		m, ok := el.(map[string]any)
+		if !ok {
+			v.unk("%s: element is not an object", p)
+			return
+		}
+		for k, x := range m {
+			v.evalElem(e.Elem, s, x, fmt.Sprintf("%s[%s]", p, k))
+		}
 	default:
 		if !typedCorrect(e.Kind, el, s.ctx, s.ctx.AllFromString) {
 			v.unk("%s: element not correctly typed", p)
@@ -806,6 +815,12 @@ func (c *comparer) field(f *fieldD, fv reflect.Value, s *source, tree map[string
 		// several values for a scalar: go-zero takes the first one under WithFromArray
 		if arr, ok := asArray(leaf); ok {
 			if len(arr) == 0 {
+				// a key without any value: if that is accepted at all, nothing was supplied
+				if d, dok := deref(fv); ctx.FromArray && dok && !d.IsZero() {
+					if want, wok := interpret(f.Kind, f.Def); !(f.HasDef && wok && sameScalar(f.Kind, d, want)) {
+						c.bad("supplied", f.Kind, p, "an empty value list was accepted, yet the target holds %v", d.Interface())
+					}
+				}
 				return
 			}
 			leaf = arr[0]
@@ -906,6 +921,23 @@ func (c *comparer) elem(e *fieldD, ev reflect.Value, el any, s *source, p string
 			return
 		}
 		c.elems(e.Elem, d, arr, s, p)
+	case reflect.Map:
+		m, mok := el.(map[string]any)
+		if !mok {
+			return
+		}
+		if d.Len() != len(m) {
+			c.bad("supplied", reflect.Map, p, "map element has %d entries, %d supplied", d.Len(), len(m))
+			return
+		}
+		for k, x := range m {
+			ev := d.MapIndex(reflect.ValueOf(k))
+			if !ev.IsValid() {
+				c.bad("supplied", reflect.Map, p, "map element lacks supplied key %q", k)
+				return
+			}
+			c.elem(e.Elem, ev, x, s, fmt.Sprintf("%s[%s]", p, k))
+		}
 	default:
 		want, wok := interpret(e.Kind, el)
 		if !wok {
